@@ -24,6 +24,9 @@ TICK, ENTER, EXIT, FIRED, FIRED_END, RAISED, ROUTED = range(7)
 KIND = ['tick', 'enter', 'exit', 'fired', 'firedEnd', 'raised', 'routed']
 
 
+RUNAWAY = 500      # a correct run starts at most one timer per entered state
+
+
 class HandlerError(Exception):
     pass
 
@@ -325,6 +328,9 @@ def run_threads(case):
     with vclock.patched_timer(clock):
         machine, models = _machine(case, run)
         for op in case['history']:
+            if len(clock.timers) > RUNAWAY:
+                run.bad.append('more than %d timers were started' % RUNAWAY)
+                break
             if op[0] == 'tick':
                 clock.tick()
                 for m, e in op[1]:
@@ -368,6 +374,9 @@ def run_async(case):
     try:
         machine, models = _machine(case, run)
         for op in case['history']:
+            if len(asyncio.all_tasks(loop)) > RUNAWAY:
+                run.bad.append('more than %d tasks are pending' % RUNAWAY)
+                break
             if op[0] == 'tick':
                 if op[1]:
                     raise common.MachineryError('early events are not realisable under asyncio')
@@ -720,6 +729,16 @@ def shrink_steps(case):
             c = copy.deepcopy(case)
             del c['transitions'][i]
             yield c
+    for k, top in enumerate(case['states']):
+        if len(case['states']) > 1:
+            gone = set(n['id'] for n, _p in walk([top]))
+            if any(init in gone for _m, init in case['models']):
+                continue
+            c = copy.deepcopy(case)
+            del c['states'][k]
+            c['transitions'] = [t for t in c['transitions'] if t['src'] not in gone and t['dst'] not in gone]
+            if c['transitions']:
+                yield c
     for key, val in (('queued', False), ('send_event', False), ('on_exc', False), ('async_cbs', False)):
         if case[key] != val:
             c = copy.deepcopy(case)
@@ -790,7 +809,7 @@ class C17(runner.Check):
                'harness/vclock.py: virtual Timer (replaces transitions.extensions.states.Timer) and virtual-clock event loop',
                'harness/props/c17.py resolve_table: which states an event exits/enters (flat and non-parallel nested)')
 
-    quick = (32, 250)
+    quick = (48, 400)
     thorough = (128, 1000)
 
     def explore(self, tier, seed):
@@ -851,6 +870,9 @@ class C17(runner.Check):
         print('implementation trace:', ' | '.join(show(split_pre(case, run.recs)[0])))
         print('model trace:         ', ' | '.join(show(parse_run(ans)[0])))
         print('flags:', flags)
+        print('verified monitor on implementation trace:',
+              common.batch_driver([('c17mon', enc_mon(case, split_pre(case, run.recs)[0]))])[0],
+              '(not judged: same-instant race)' if flags['ambiguous'] else '')
         for f in fails:
             print('FAIL', f.kind, f.what, json.dumps(f.details.get('bad') or f.details.get('monitor') or '', default=str))
         return 1 if fails else 0
